@@ -54,8 +54,9 @@ class Ctx:
         for the known-findings filter."""
         for k in self.known:
             if k.get("status") == "open" and key is not None and key == k.get("key"):
+                if not any(h.get("id") == k.get("id") for h in self.known_hits):
+                    print(f"KNOWN-FINDING: property={self.pid} {k['what']}", flush=True)
                 self.known_hits.append(k)
-                print(f"KNOWN-FINDING: property={self.pid} {k['what']}", flush=True)
                 return
         self.replay_n += 1
         path = os.path.join(REPLAYS, f"{self.pid}-{self.seed}-{self.replay_n}.json")
